@@ -301,7 +301,7 @@ pub mod rt {
 
         /// f32 powers of two with biased exponent in 1..=15 (symbolic), both signs: write -> parse round trip.
         /// @prop C02 C08
-        /// @tier thorough
+        /// @tier deep
         /// @feat default
         /// @bound f32 powers of two, biased exponent 1..=15
         /// @fn lexical-write-float::algorithm::compute_nearest_shorter[f32]
@@ -337,7 +337,7 @@ pub mod rt {
 
         /// f32 powers of two with biased exponent in 32..=47 (symbolic), both signs: write -> parse round trip.
         /// @prop C02 C08
-        /// @tier thorough
+        /// @tier deep
         /// @feat default
         /// @bound f32 powers of two, biased exponent 32..=47
         /// @fn lexical-write-float::algorithm::compute_nearest_shorter[f32]
@@ -355,7 +355,7 @@ pub mod rt {
 
         /// f32 powers of two with biased exponent in 48..=63 (symbolic), both signs: write -> parse round trip.
         /// @prop C02 C08
-        /// @tier thorough
+        /// @tier deep
         /// @feat default
         /// @bound f32 powers of two, biased exponent 48..=63
         /// @fn lexical-write-float::algorithm::compute_nearest_shorter[f32]
@@ -373,7 +373,7 @@ pub mod rt {
 
         /// f32 powers of two with biased exponent in 64..=79 (symbolic), both signs: write -> parse round trip.
         /// @prop C02 C08
-        /// @tier thorough
+        /// @tier deep
         /// @feat default
         /// @bound f32 powers of two, biased exponent 64..=79
         /// @fn lexical-write-float::algorithm::compute_nearest_shorter[f32]
@@ -391,7 +391,7 @@ pub mod rt {
 
         /// f32 powers of two with biased exponent in 80..=95 (symbolic), both signs: write -> parse round trip.
         /// @prop C02 C08
-        /// @tier thorough
+        /// @tier deep
         /// @feat default
         /// @bound f32 powers of two, biased exponent 80..=95
         /// @fn lexical-write-float::algorithm::compute_nearest_shorter[f32]
@@ -409,7 +409,7 @@ pub mod rt {
 
         /// f32 powers of two with biased exponent in 96..=111 (symbolic), both signs: write -> parse round trip.
         /// @prop C02 C08
-        /// @tier thorough
+        /// @tier deep
         /// @feat default
         /// @bound f32 powers of two, biased exponent 96..=111
         /// @fn lexical-write-float::algorithm::compute_nearest_shorter[f32]
@@ -427,7 +427,7 @@ pub mod rt {
 
         /// f32 powers of two with biased exponent in 112..=127 (symbolic), both signs: write -> parse round trip.
         /// @prop C02 C08
-        /// @tier thorough
+        /// @tier deep
         /// @feat default
         /// @bound f32 powers of two, biased exponent 112..=127
         /// @fn lexical-write-float::algorithm::compute_nearest_shorter[f32]
@@ -445,7 +445,7 @@ pub mod rt {
 
         /// f32 powers of two with biased exponent in 128..=143 (symbolic), both signs: write -> parse round trip.
         /// @prop C02 C08
-        /// @tier thorough
+        /// @tier deep
         /// @feat default
         /// @bound f32 powers of two, biased exponent 128..=143
         /// @fn lexical-write-float::algorithm::compute_nearest_shorter[f32]
@@ -463,7 +463,7 @@ pub mod rt {
 
         /// f32 powers of two with biased exponent in 144..=159 (symbolic), both signs: write -> parse round trip.
         /// @prop C02 C08
-        /// @tier thorough
+        /// @tier deep
         /// @feat default
         /// @bound f32 powers of two, biased exponent 144..=159
         /// @fn lexical-write-float::algorithm::compute_nearest_shorter[f32]
@@ -481,7 +481,7 @@ pub mod rt {
 
         /// f32 powers of two with biased exponent in 160..=175 (symbolic), both signs: write -> parse round trip.
         /// @prop C02 C08
-        /// @tier thorough
+        /// @tier deep
         /// @feat default
         /// @bound f32 powers of two, biased exponent 160..=175
         /// @fn lexical-write-float::algorithm::compute_nearest_shorter[f32]
@@ -499,7 +499,7 @@ pub mod rt {
 
         /// f32 powers of two with biased exponent in 176..=191 (symbolic), both signs: write -> parse round trip.
         /// @prop C02 C08
-        /// @tier thorough
+        /// @tier deep
         /// @feat default
         /// @bound f32 powers of two, biased exponent 176..=191
         /// @fn lexical-write-float::algorithm::compute_nearest_shorter[f32]
@@ -517,7 +517,7 @@ pub mod rt {
 
         /// f32 powers of two with biased exponent in 192..=207 (symbolic), both signs: write -> parse round trip.
         /// @prop C02 C08
-        /// @tier thorough
+        /// @tier deep
         /// @feat default
         /// @bound f32 powers of two, biased exponent 192..=207
         /// @fn lexical-write-float::algorithm::compute_nearest_shorter[f32]
@@ -553,7 +553,7 @@ pub mod rt {
 
         /// f32 powers of two with biased exponent in 224..=239 (symbolic), both signs: write -> parse round trip.
         /// @prop C02 C08
-        /// @tier thorough
+        /// @tier deep
         /// @feat default
         /// @bound f32 powers of two, biased exponent 224..=239
         /// @fn lexical-write-float::algorithm::compute_nearest_shorter[f32]
@@ -571,7 +571,7 @@ pub mod rt {
 
         /// f32 powers of two with biased exponent in 240..=254 (symbolic), both signs: write -> parse round trip.
         /// @prop C02 C08
-        /// @tier thorough
+        /// @tier deep
         /// @feat default
         /// @bound f32 powers of two, biased exponent 240..=254
         /// @fn lexical-write-float::algorithm::compute_nearest_shorter[f32]
@@ -589,7 +589,7 @@ pub mod rt {
 
         /// every normal f64 power of two, both signs: write -> parse round trip.
         /// @prop C02 C08
-        /// @tier thorough
+        /// @tier deep
         /// @mem 10
         /// @feat default radix_format
         /// @bound f64 powers of two (mantissa field zero), all 2046 normal exponents, both signs
